@@ -681,4 +681,18 @@ example : (∀ x, (toyH x).length = 32) ∧ Shape xState ∧ (∃ s, specInfo to
   · have key : ∀ x ∈ reprs toyH xState, ∀ y ∈ reprs toyH xState, toyH x = toyH y → x = y := by decide +kernel
     exact fun x y hx hy => key x hx y hy
 
+/-! Non-vacuity of the hypotheses of `c11_account_complete_honest` that are new with respect to `c11_complete`: for the
+unpruned one-account state tree (`ps = ts = xState`), with the toy hash, the object can be built and passes the TL-B walk
+(`hloc`, for the `O` that accepts everything), the full state's dictionary holds the address (`hfull`), and the tree is a
+pruning of itself. -/
+example : (match PCell.ofCell toyH xState with
+      | some st => (locateAccount ⟨fun _ => true, fun _ => true⟩ st exAddr).isSome
+      | none => false) = true ∧
+    (lookupShardAccount cellView xState (bytesToBits exAddr)).isSome = true ∧ PruneRel toyH 1 xState xState := by
+  refine ⟨by decide +kernel, by decide +kernel, ?_⟩
+  exact pruneRel_ord_refl _ _ _ _ (pruneRels_cons _ _ _ _ (pruneRel_ord_refl _ _ _ _ (pruneRels_nil _ _))
+    (pruneRels_cons _ _ _ _ (pruneRel_ord_refl _ _ _ _ (pruneRels_cons _ _ _ _ (pruneRel_ord_refl _ _ _ _
+      (pruneRels_cons _ _ _ _ (pruneRel_ord_refl _ _ _ _ (pruneRels_nil _ _)) (pruneRels_nil _ _))) (pruneRels_nil _ _)))
+    (pruneRels_cons _ _ _ _ (pruneRel_ord_refl _ _ _ _ (pruneRels_nil _ _)) (pruneRels_nil _ _))))
+
 end TonVerif.Properties.C11
